@@ -13,8 +13,11 @@ SCHEMA_CANDIDATES = ["/root/.vp/EVIDENCE.schema.json", os.path.join(VERIF, "sche
 
 
 def write_evidence(report, tier: str, seed: int, wall_s: float, n_unlisted: int, n_known: int) -> str:
-    os.makedirs(os.path.join(VERIF, "evidence"), exist_ok=True)
-    path = os.path.join(VERIF, "evidence", f"{report.property_id}.json")
+    # VERIF_EVIDENCE_DIR: used by tools/try_patch.sh and tools/seed_eval.sh so that runs against a deliberately broken
+    # scratch tree never overwrite the evidence of the unchanged tree
+    edir = os.environ.get("VERIF_EVIDENCE_DIR") or os.path.join(VERIF, "evidence")
+    os.makedirs(edir, exist_ok=True)
+    path = os.path.join(edir, f"{report.property_id}.json")
     cov = dict(report.coverage)
     cov.setdefault("known_finding_violations", n_known)
     ev = {
